@@ -62,7 +62,7 @@ pub fn c19_stepenv_level_1_data_array() {
 }
 
 #[kani::proof]
-#[kani::unwind(12)]
+#[kani::unwind(48)]
 #[kani::stub(numpy::PyArray::from_slice, stub_from_slice)]
 pub fn c19_stepenv_level_2_data_array() {
     let (se, d, tv) = any_step_env();
